@@ -262,32 +262,56 @@ def grammars_for(case, root, with_tools):
                 pass
 
 
-def check(case, root, with_tools=True):
-    fails = {}
+def passes_through(pattern: str) -> bool:
+    """Predicate of the known finding regex-passed-through-as-gbnf: the pattern is neither degraded to [^\\n]+ (features the
+    compiler documents as unsupported) nor a single character class, so its text is copied into the grammar."""
+    p = pattern.lstrip("^").rstrip("$")
+    if any(u in p for u in ["(?", "\\b", "\\B", "\\d", "\\w", "\\s", "\\D", "\\W", "\\S"]):
+        return False
+    m = re.match(r"^\[([^\]]+)\]([+*?]?)$", p)
+    if m:
+        # a single class is copied too (body verbatim); only bodies of plain characters are certain to be valid GBNF
+        return not re.fullmatch(r"\^?[A-Za-z0-9_ \-]+", m.group(1))
+    return bool(p) and p not in ["+", "*", "?"]
+
+
+def _problems(case, root, with_tools):
+    out = {}
     nroutes = 0
     fields = [(f, [tuple(m) if isinstance(m, list) else m for m in ms]) for f, ms in case["fields"]]
     try:
         for route, text in grammars_for(case, root, with_tools):
             nroutes += 1
             if not isinstance(text, str):
-                fails.setdefault("C12:unlisted:not-a-string", f"{route}: grammar is {type(text).__name__}")
+                out.setdefault("C12:unlisted:not-a-string", f"{route}: grammar is {type(text).__name__}")
                 continue
-            probs = problems_of(text)
-            sigs = [classify(prob, fields, route) for prob in probs]
-            # cascades: when recovery after a *known* syntax malformation skipped text, rules (even root) can be lost;
-            # such follow-up problems belong to the malformation that caused them, provided every syntax error of this
-            # grammar is a known one. A grammar without syntax errors gets no such allowance.
-            syntax_sigs = {sg for prob, sg in zip(probs, sigs) if prob[0] in SYNTAX}
-            if syntax_sigs and not any(sg.startswith("C12:unlisted") for sg in syntax_sigs):
-                cause = sorted(syntax_sigs)[0]
-                sigs = [cause if (prob[0] in ("no-root", "undefined-ref") and sg.startswith("C12:unlisted")) else sg for prob, sg in zip(probs, sigs)]
-            for prob, sig in zip(probs, sigs):
-                fails.setdefault(sig, f"[{route}] {prob[0]} in rule {prob[1]!r}: {prob[2]} | fields={case['fields']!r} | grammar={text!r}"[:1800])
+            for prob in problems_of(text):
+                sig = classify(prob, fields, route)
+                out.setdefault(sig, f"[{route}] {prob[0]} in rule {prob[1]!r}: {prob[2]} | fields={case['fields']!r} | grammar={text!r}"[:1800])
     except Exception as e:
         import traceback
 
-        fails.setdefault("C12:unlisted:compiler-raised", f"compiler raised {e!r} for {case['fields']!r}: {traceback.format_exc()[-600:]}")
-    return list(fails.items()), nroutes
+        out.setdefault("C12:unlisted:compiler-raised", f"compiler raised {e!r} for {case['fields']!r}: {traceback.format_exc()[-600:]}")
+    return out, nroutes
+
+
+def check(case, root, with_tools=True):
+    """A copied-through REGEX (known finding) can corrupt everything after it (a stray quote swallows the following rules), so
+    such a schema is checked twice: as it is, keeping only the known class (the finding still reproduces), and as its twin
+    with those REGEX members replaced by REQ, where every problem counts. Nothing hides behind the known malformation."""
+    def is_pt(m):
+        return isinstance(m, (list, tuple)) and m[0] == "REGEX" and passes_through(m[1])
+
+    if any(is_pt(m) for _, ms in case["fields"] for m in ms):
+        orig, n1 = _problems(case, root, with_tools)
+        twin = {**case, "fields": [[f, ["REQ" if is_pt(m) else m for m in ms]] for f, ms in case["fields"]]}
+        tw, n2 = _problems(twin, root, with_tools)
+        fails = {k: v for k, v in orig.items() if k == "C12:regex-passed-through-as-gbnf"}
+        for k, v in tw.items():
+            fails.setdefault(k, "[twin with copied-through REGEX members replaced by REQ] " + v)
+        return list(fails.items()), n1 + n2
+    fails, n = _problems(case, root, with_tools)
+    return list(fails.items()), n
 
 
 def strategy():
